@@ -23,11 +23,12 @@ KINDS = {"B": ("IN", "BUY"), "I": ("IN", "INTEREST"), "S": ("OUT", "SELL"), "M":
 def jobs(tier):
     js = []
 
-    def add(h1, h2, method="fifo", todate=False):
-        js.append({"h1": h1, "h2": h2, "method": method, "todate": todate})
+    def add(h1, h2, method="fifo", todate=False, lotfee=False):
+        js.append({"h1": h1, "h2": h2, "method": method, "todate": todate, "lotfee": lotfee})
 
     # history = list of (kind, account[, to-account]) per asset
     add("Ba Sa", "Bd")
+    add("Ba Sa", "Bd", lotfee=True)  # the lot carries a fiat fee: it is part of the cost of the unsold part
     add("Ba Bb Bc", "Bd")  # one holder on two exchanges that sort around another holder's exchange
     add("Ba Bd Sa", "Ba")
     add("Ba Mad Sd", "Bb")
@@ -49,7 +50,7 @@ def jobs(tier):
 
 
 def describe(spec):
-    return "B1=[%s] B2=[%s] %s%s" % (spec["h1"], spec["h2"], spec["method"], " to_date" if spec["todate"] else "")
+    return "B1=[%s] B2=[%s] %s%s%s" % (spec["h1"], spec["h2"], spec["method"], " to_date" if spec["todate"] else "", " lot-fee" if spec.get("lotfee") else "")
 
 
 def weight(spec):
@@ -64,11 +65,13 @@ def assumptions():
     return ["allow_negative_balances=False: histories that overdraw an account are rejected by rp2 and not inspected", "exact rational arithmetic on both sides; on real code (replay) the figures are compared with a tolerance of 1e-22 relative to the total cost the unrealized cost is derived from: rp2 computes cost x (1 - sold fraction), and for an almost completely sold lot the 31-digit rounding of the sold fraction is an absolute error of 1e-31 x cost, not a relative one", "sheet names 'Asset', 'Asset - Exchange' (the generator addresses them literally)"]
 
 
-def _parse(text, asset):
+def _parse(text, asset, lotfee=False):
     slots = []
     for i, tok in enumerate(text.split()):
         table, typ = KINDS[tok[0]]
-        s = slot(table, typ, asset=asset, fee="any" if tok[0] in "SMG" else "none")
+        # disposals carry a crypto fee >= 0; in the lot-fee job the first acquisition carries a fiat fee >= 0 (part of the lot's
+        # cost) - a fee on every lot of every job made the non-linear queries too slow
+        s = slot(table, typ, asset=asset, fee="any" if tok[0] in "SMG" or (lotfee and i == 0 and table == "IN") else "none")
         s["ex"], s["ho"] = ACC[tok[1]]
         if tok[0] == "M":
             s["ex2"], s["ho2"] = ACC[tok[2]]
@@ -83,7 +86,7 @@ def run(S, spec):
     from rp2.tax_engine import compute_tax  # pylint: disable=import-outside-toplevel
 
     S.set_years([2020])
-    h = {"B1": Hist(S, _parse(spec["h1"], "B1"), [2020], prefix="x", price_min=100), "B2": Hist(S, _parse(spec["h2"], "B2"), [2020], prefix="y", price_min=100)}
+    h = {"B1": Hist(S, _parse(spec["h1"], "B1", spec.get("lotfee")), [2020], prefix="x", price_min=100), "B2": Hist(S, _parse(spec["h2"], "B2"), [2020], prefix="y", price_min=100)}
     to_date = None
     if spec["todate"]:
         to_date = S.date(S.int("to", date(2019, 12, 30).toordinal(), date(2021, 1, 1).toordinal()))
